@@ -80,6 +80,20 @@ Definition is_junk (x : bid) : Prop := (JBASE <= x)%N.
 Lemma set1_length (d : list bid) j x : length (mapi (fun k y => if Nat.eqb k j then x else y) d) = length d.
 Proof. apply mapi_length. Qed.
 
+Lemma xor_toggle_in x m y : In y (xor_toggle x m) -> y = x \/ In y m.
+Proof.
+  induction m as [|z t IH]; cbn; [intros [E|[]]; auto|].
+  destruct (N.eqb x z); [intro H; right; right; exact H|]. intros [E|H]; [right; left; exact E|].
+  destruct (IH H) as [E|E]; [left; exact E | right; right; exact E].
+Qed.
+Lemma xor_ids_in l y : In y (xor_ids l) -> In y l.
+Proof.
+  unfold xor_ids. assert (G : forall l m, In y (fold_left (fun m x => if N.eqb x 0 then m else xor_toggle x m) l m) -> In y l \/ In y m).
+  { induction l0 as [|x t IH]; intros m H; [right; exact H|]. cbn [fold_left] in H. destruct (IH _ H) as [E|E]; [left; right; exact E|].
+    destruct (N.eqb x 0); [right; exact E|]. destruct (xor_toggle_in x m y E) as [E2|E2]; [left; left; auto | right; exact E2]. }
+  intro H. destruct (G l [] H) as [E|[]]. exact E.
+Qed.
+
 (* the three possible results at a failed position: the common encoded vector, a block of the encoded vector that sits at
    another position (xor parity, moved block), or junk *)
 Lemma reconstruct_cases xor1 F used d jn :
@@ -90,6 +104,7 @@ Lemma reconstruct_cases xor1 F used d jn :
                       /\ agree_out F v d = true
                       /\ forall i, In i F -> i < length d -> vnth r i = vnth v i)
       \/ (exists v j i, used = [PEnc v] /\ F = [j] /\ (j < length d -> vnth r j = vnth v i))
+      \/ (exists j i, F = [j] /\ i <> j /\ (j < length d -> vnth r j = vnth d i))
       \/ (forall i, In i F -> i < length d -> is_junk (vnth r i))).
 Proof.
   cbn zeta.
@@ -108,8 +123,9 @@ Proof.
                       /\ agree_out F v d = true
                       /\ forall i, In i F -> i < length d -> vnth (mapi (fun i x => if memn i F then (JBASE + jn + N.of_nat i)%N else x) d) i = vnth v i)
                    \/ (exists v j i, used = [PEnc v] /\ F = [j] /\ (j < length d -> vnth (mapi (fun i x => if memn i F then (JBASE + jn + N.of_nat i)%N else x) d) j = vnth v i))
+                   \/ (exists j i, F = [j] /\ i <> j /\ (j < length d -> vnth (mapi (fun i x => if memn i F then (JBASE + jn + N.of_nat i)%N else x) d) j = vnth d i))
                    \/ (forall i, In i F -> i < length d -> is_junk (vnth (mapi (fun i x => if memn i F then (JBASE + jn + N.of_nat i)%N else x) d) i)))).
-  { split; [exact J1|]. split; [exact J2|]. right. right. exact J3. }
+  { split; [exact J1|]. split; [exact J2|]. right. right. right. exact J3. }
   unfold reconstruct. destruct used as [|[v|t|] rest]; cbn [fst]; try exact JJ.
   destruct (forallb (fun p => match p with PEnc v' => veq v v' | _ => false end) rest) eqn:E1; cbn [andb]; [destruct (agree_out F v d) eqn:E2|].
   - (* the good case *)
@@ -123,14 +139,31 @@ Proof.
   - (* disagreement outside F *)
     destruct xor1; [|exact JJ].
     destruct F as [|j [|j2 F2]]; try exact JJ. destruct rest as [|p rest]; try exact JJ.
-    destruct (filter _ _) as [|i [|i2 t]]; try exact JJ.
-    destruct (N.eqb (vnth v j) 0 && N.eqb (vnth d i) 0); [|exact JJ].
-    cbn [fst]. split; [apply mapi_length|]. split.
-    + intros k Hk. assert (Hkj : k <> j) by (intro X; apply Hk; left; auto).
-      destruct (Nat.lt_ge_cases k (length d)) as [Hl|Hl].
-      * rewrite vnth_mapi by exact Hl. apply Nat.eqb_neq in Hkj. rewrite Hkj. reflexivity.
-      * rewrite vnth_mapi_out by exact Hl. rewrite vnth_out by exact Hl. reflexivity.
-    + right. left. exists v, j, i. repeat split; auto. intro Hl. rewrite vnth_mapi by exact Hl. rewrite Nat.eqb_refl. reflexivity.
+    set (others := filter (fun i => negb (Nat.eqb i j)) (seq 0 (Nat.max (length v) (length d)))).
+    assert (Hset : forall x, length (mapi (fun k x0 => if Nat.eqb k j then x else x0) d) = length d
+                             /\ (forall i, ~ In i [j] -> vnth (mapi (fun k x0 => if Nat.eqb k j then x else x0) d) i = vnth d i)
+                             /\ (j < length d -> vnth (mapi (fun k x0 => if Nat.eqb k j then x else x0) d) j = x)).
+    { intro x. split; [apply mapi_length|]. split.
+      - intros k Hk. assert (Hkj : k <> j) by (intro X; apply Hk; left; auto).
+        destruct (Nat.lt_ge_cases k (length d)) as [Hl|Hl].
+        + rewrite vnth_mapi by exact Hl. apply Nat.eqb_neq in Hkj. rewrite Hkj. reflexivity.
+        + rewrite vnth_mapi_out by exact Hl. rewrite vnth_out by exact Hl. reflexivity.
+      - intro Hl. rewrite vnth_mapi by exact Hl. rewrite Nat.eqb_refl. reflexivity. }
+    destruct (xor_ids (vnth v j :: flat_map (fun i => [vnth v i; vnth d i]) others)) as [|x [|x2 t]] eqn:EX; try exact JJ.
+    + (* everything cancels: the zero block *)
+      cbn [fst]. destruct (Hset 0%N) as [S1 [S2 S3]]. split; [exact S1|]. split; [exact S2|].
+      right. left. exists v, j, (length v). split; [reflexivity|]. split; [reflexivity|]. intro Hl. etransitivity; [apply (S3 Hl)|]. symmetry. apply vnth_out. lia.
+    + (* one block is left *)
+      cbn [fst]. destruct (Hset x) as [S1 [S2 S3]]. split; [exact S1|]. split; [exact S2|].
+      assert (Hin : In x (vnth v j :: flat_map (fun i => [vnth v i; vnth d i]) others)).
+      { apply xor_ids_in. rewrite EX. left. reflexivity. }
+      destruct Hin as [E|Hin].
+      * right. left. exists v, j, j. split; [reflexivity|]. split; [reflexivity|]. intro Hl. etransitivity; [apply (S3 Hl)|]. symmetry. exact E.
+      * apply in_flat_map in Hin. destruct Hin as [i [Hi [E|[E|[]]]]].
+        -- right. left. exists v, j, i. split; [reflexivity|]. split; [reflexivity|]. intro Hl. etransitivity; [apply (S3 Hl)|]. symmetry. exact E.
+        -- right. right. left. exists j, i. split; [reflexivity|]. split.
+           ++ unfold others in Hi. apply filter_In in Hi. destruct Hi as [_ Hi]. apply negb_true_iff in Hi. apply Nat.eqb_neq in Hi. exact Hi.
+           ++ intro Hl. etransitivity; [apply (S3 Hl)|]. symmetry. exact E.
   - destruct xor1; [|exact JJ].
     destruct F as [|j [|j2 F2]]; try exact JJ. destruct rest as [|p rest]; [|exact JJ]. cbn in E1. discriminate.
 Qed.
@@ -236,6 +269,10 @@ Section Repair.
   Definition cf_rec (fm : list fent) (rec : list penc) (v : list bid) : Prop :=
     forall l w i e, nth l rec PNone = PEnc w -> In e fm ->
                     blockcmp (fe_hash e) (fe_len e) (vnth w i) = true -> vnth w i = vnth v (fe_idx e).
+  (* ... and a block of the recorded vector itself, at ANOTHER disk position (with plain xor parity and a stale parity block the
+     data read from another disk can come out, see FixModel.reconstruct), passes the hash test of e only if it is the block of e *)
+  Definition cf_vec (fm : list fent) (v : list bid) : Prop :=
+    forall i e, In e fm -> blockcmp (fe_hash e) (fe_len e) (vnth v i) = true -> vnth v i = vnth v (fe_idx e).
   Definition hv_ok (fm : list fent) (v : list bid) : Prop :=
     forall e, In e fm -> blockcmp (fe_hash e) (fe_len e) (vnth v (fe_idx e)) = true.
 
@@ -258,7 +295,7 @@ Section Repair.
 
   Lemma try_combos_good pos fm rec v :
     forall cs buf jn err tags,
-      fm_ok fm buf -> hv_ok fm v -> cf_junk fm -> cf_rec fm rec v ->
+      fm_ok fm buf -> hv_ok fm v -> cf_junk fm -> cf_rec fm rec v -> cf_vec fm v ->
       agree_out (map fe_idx fm) v buf = true ->
       (forall ip, In ip cs -> ip <> []) ->
       (exists ip, In ip cs /\ forall l, In l ip -> good_level v rec l = true) ->
@@ -267,7 +304,7 @@ Section Repair.
         /\ restored (map fe_idx fm) v buf buf'.
   Proof.
     set (F := map fe_idx fm).
-    induction cs as [|ip rest IH]; intros buf jn err tags Hok Hhv Hj Hr Hag Hne [gip [Hgin Hgood]].
+    induction cs as [|ip rest IH]; intros buf jn err tags Hok Hhv Hj Hr Hv Hag Hne [gip [Hgin Hgood]].
     - contradiction.
     - simpl.
       assert (InF : forall e, In e fm -> In (fe_idx e) F) by (intros e He; apply in_map; exact He).
@@ -290,7 +327,7 @@ Section Repair.
           apply memn_spec in Em. apply in_map_iff in Em. destruct Em as [e [Ee He]]. subst i.
           rewrite (hash_matching_true fm buf' buf' Hok') in EH.
           pose proof (reconstruct_cases x1 F (map (fun l => nth l rec PNone) ip) buf jn) as C; rewrite ER in C; cbn [fst] in C.
-          destruct C as [_ [_ [C|[C|C]]]].
+          destruct C as [_ [_ [C|[C|[C|C]]]]].
           -- destruct C as [w [rs [Eu [_ [_ Hw]]]]].
              rewrite Hw by (auto using InF).
              destruct ip as [|l0 ipt]; [discriminate|]. simpl in Eu. injection Eu as E0 _.
@@ -302,6 +339,14 @@ Section Repair.
              rewrite Ej, (Hw Hi'). rewrite <- Ej.
              destruct ip as [|l0 ipt]; [discriminate|]. simpl in Eu. injection Eu as E0 _.
              apply (Hr l0 w i e E0 He). specialize (EH e He). rewrite Ej, (Hw Hi') in EH. exact EH.
+          -- destruct C as [j [i [EF [Hij Hw]]]].
+             assert (Ej : fe_idx e = j).
+             { pose proof (InF e He) as X. rewrite EF in X. destruct X as [X|[]]. auto. }
+             assert (Hi' : j < length buf) by (rewrite <- Ej; exact Hi).
+             assert (Hvi : vnth v i = vnth buf i).
+             { rewrite agree_out_spec in Hag. apply Hag. rewrite EF. intros [X|[]]. apply Hij. symmetry. exact X. }
+             rewrite Ej, (Hw Hi'), <- Hvi. rewrite <- Ej.
+             apply (Hv i e He). specialize (EH e He). rewrite Ej, (Hw Hi'), <- Hvi in EH. exact EH.
           -- exfalso. specialize (C (fe_idx e) (InF e He) Hi).
              specialize (EH e He). rewrite (Hj e _ He C) in EH. discriminate.
         * (* rejected: it was not an all-good combination *)
@@ -321,7 +366,7 @@ Section Repair.
               rewrite Hres by (apply (fo_idx _ _ Hok); exact He).
               assert (Em : memn (fe_idx e) F = true) by (apply memn_spec; auto). rewrite Em. apply Hhv. exact He. }
             congruence. }
-          destruct (IH buf' jn' (S err) (tags ++ [(K_PAR_TRY, N.of_nat pos :: 1%N :: map N.of_nat ip)]) Hok' Hhv Hj Hr Hag' Hne' Hex)
+          destruct (IH buf' jn' (S err) (tags ++ [(K_PAR_TRY, N.of_nat pos :: 1%N :: map N.of_nat ip)]) Hok' Hhv Hj Hr Hv Hag' Hne' Hex)
             as [b2 [j2 [e2 [t2 [E2 [R1 R2]]]]]].
           exists b2, j2, e2, t2. split; [exact E2|]. split; [congruence|].
           intros i Hi. rewrite R2 by (rewrite Hlen; exact Hi).
@@ -345,21 +390,21 @@ Section Repair.
 
   (* repair_step succeeds with the recorded vector when at least |fm| levels are intact *)
   Theorem repair_step_good pos fm rec v buf jn :
-    fm_ok fm buf -> hv_ok fm v -> cf_junk fm -> cf_rec fm rec v ->
+    fm_ok fm buf -> hv_ok fm v -> cf_junk fm -> cf_rec fm rec v -> cf_vec fm v ->
     agree_out (map fe_idx fm) v buf = true ->
     length fm <= length (filter (good_level v rec) (seq 0 nlev)) ->
     exists buf' jn' tags,
       repair_step hashf padz bs nlev pos fm rec buf jn = (ROk, buf', jn', tags)
       /\ restored (map fe_idx fm) v buf buf'.
   Proof.
-    intros Hok Hhv Hj Hr Hag Hn. unfold repair_step.
+    intros Hok Hhv Hj Hr Hv Hag Hn. unfold repair_step.
     destruct (Nat.eqb (length fm) 0) eqn:E0.
     { apply Nat.eqb_eq in E0. destruct fm; [destruct (fo_ne _ _ Hok); reflexivity | discriminate]. }
     rewrite (has_hash_ok _ _ Hok).
     assert (Hle : (length fm <=? nlev) = true).
     { apply Nat.leb_le. etransitivity; [exact Hn|]. etransitivity; [apply filter_len_le|]. rewrite seq_length. lia. }
     rewrite Hle. simpl.
-    destruct (try_combos_good pos fm rec v (combos (seq 0 nlev) (length fm)) buf jn 0 [] Hok Hhv Hj Hr Hag) as [buf' [jn' [err' [tags' [E R]]]]].
+    destruct (try_combos_good pos fm rec v (combos (seq 0 nlev) (length fm)) buf jn 0 [] Hok Hhv Hj Hr Hv Hag) as [buf' [jn' [err' [tags' [E R]]]]].
     - intros ip Hip. apply combos_sound in Hip. destruct Hip as [_ Hl]. apply Nat.eqb_neq in E0. destruct ip; [simpl in Hl; congruence | discriminate].
     - apply good_combo_exists. exact Hn.
     - rewrite E. exists buf', jn', tags'. split; [reflexivity | exact R].
@@ -396,6 +441,7 @@ Section RepairAll.
   Theorem repair_restores pos nosearch fs0 failed rec v buf jn :
     blk_failed failed buf ->
     hv_ok hashf padz bs failed v -> cf_junk hashf padz bs failed -> cf_rec hashf padz bs failed rec v ->
+    cf_vec hashf padz bs failed v ->
     cf_search nosearch fs0 failed v ->
     agree_out (map fe_idx failed) v buf = true ->
     length failed <= length (filter (good_level v rec) (seq 0 nlev)) ->
@@ -403,7 +449,7 @@ Section RepairAll.
       repair hashf padz bs nlev reduced pos nosearch fs0 failed rec buf jn = (ROk, failed, buf', jn', tags)
       /\ full v buf buf'.
   Proof.
-    intros Hblk Hhv Hj Hr Hs Hag Hn.
+    intros Hblk Hhv Hj Hr Hvec Hs Hag Hn.
     set (g := fun (acc : list fent * list bid) e =>
                 if fe_bad e then
                   match (if fe_updated_hash e then search_fetch hashf bs nosearch fs0 e else None) with
@@ -477,6 +523,7 @@ Section RepairAll.
       + intros e He. apply Hhv. auto.
       + intros e x He. apply Hj. auto.
       + intros l w i e El He. apply (Hr l w i e El). auto.
+      + intros i e He. apply (Hvec i e). auto.
       + exact Hag1.
       + etransitivity; [exact Hcnt|]. simpl. exact Hn.
       + assert (Efm1' : match fm1 with [] => true | _ => false end = false) by (rewrite Efm1; reflexivity).
